@@ -55,7 +55,9 @@ def P_ldate(s):
 
 PRI_MENU = tuple("P%d" % i for i in range(10))
 # representative date parts yymmdd: every class the calendar distinguishes (all have the lexer's ZID/DATE shape)
-DATE_MENU = ("240510", "240100", "240001", "241301", "241231", "240431", "240229", "230229", "240230", "240132", "241939")
+DATE_MENU = ("240510", "240100", "240001", "241301", "241231", "240431", "240229", "230229", "240230", "240132", "241939",
+             # two-digit years on both sides of strptime's %y pivot (69 -> 1969) and at the ends of the century: always 20YY
+             "000229", "680229", "690101", "991231")
 TOKEN_OF = {"id": "ID", "idm": "ID", "pric": "PRIORITY", "prim": "PRIORITY", "d6_m": "ID", "d6_d": "ID", "zid_m": "ZID",
             "zid_d": "ZID", "ldate_m": "DATE", "ldate_d": "DATE", "d6_i": "ID", "zid_i": "ZID", "ldate_i": "DATE"}
 
@@ -287,7 +289,7 @@ def core_set(tier):
                     word = "bw" if with_pri else Hole("w", "bw", "idm" if cont else "id")
                     it = Item(kind, pri=Hole("p", "P1", "prim" if cont else "pric") if with_pri else None, layout=layout, lay=lay,
                               words=["alpha", word, "omega."],
-                              cont=["  * bullet one", "  plain continuation"] if cont else [])
+                              cont=["  * bullet one  ", "  plain continuation"] if cont else [])   # (inner trailing blanks are body text)
                     name = "core-%s-%s-%s-%s" % ({"-": "note"}.get(kind, "todo" + kind), "pri" if with_pri else "nopri", layout,
                                                  "multi" if cont else "single")
                     out.append(PageSpec(name, [("title", "title"), ("blank", None), ("item", it)]))
